@@ -947,3 +947,47 @@ def rule_length_forwarded(ctx):
                 ctx.holds("LENFWD", key, f.where(used), "`%s` reaches the element write as the caller passed it" % p, nontrivial=True)
     ctx.floor("LENFWD", 2, n, "(annotation writers that take a byte count)")
     return n
+
+
+def rule_directory_match_both(ctx):
+    """DIRMATCH (C11): the DFAN directory maps an annotated object - a tag *and* a reference - to its annotation.  A look-up that
+    is given both compares both: wherever a slot's `dataref` is compared with the routine's reference parameter, the same
+    condition (or the one directly around it) compares the slot's `datatag` with the tag parameter.  Matched on the
+    reference alone, the label of NDG/7 is found for VG/7 and overwritten with the other object's text."""
+    from .facts import calls_in
+    prog = ctx.prog
+    n = 0
+    for f in prog.lib_funcs():
+        ast = f.raw.get("ast")
+        if not ast or not f.rel.endswith("hdf/src/dfan.c"):
+            continue
+        params = {(p[0] if isinstance(p, (list, tuple)) else p.get("name")) for p in f.params}
+        if not ({"tag", "ref"} <= params):
+            continue
+        found = []
+
+        def vis(nd, st):
+            if nd[0] == "if" and nd[1] is not None:
+                def cmp_field(c, fld, par):
+                    for x in walk(c, True):
+                        if x[0] == "bin" and x[1] == "==":
+                            for a_, b_ in ((strip(x[2]), strip(x[3])), (strip(x[3]), strip(x[2]))):
+                                if kind(a_) == "mem" and a_[2] == fld and kind(b_) == "var" and b_[1] == par:
+                                    return True
+                    return False
+                if cmp_field(nd[1], "dataref", "ref"):
+                    conds = [nd[1]] + [a[1] for a in st[-2:] if a[0] == "if" and a[1] is not None]
+                    found.append((nd, any(cmp_field(c, "datatag", "tag") for c in conds)))
+            return True
+
+        ast_walk(ast, vis)
+        for k, (nd, both) in enumerate(found, 1):
+            n += 1
+            key = "DIRMATCH:%s#%d" % (f.name, k)
+            line = nd[-3] if isinstance(nd[-3], int) else f.line
+            if both:
+                ctx.holds("DIRMATCH", key, f.where(line), "the directory slot is matched on the object's tag and reference", nontrivial=True)
+            else:
+                ctx.violated("DIRMATCH", key, f.where(line), "the directory slot is matched on the object's reference only: two objects with the same reference under different tags share one annotation")
+    ctx.floor("DIRMATCH", 1, n, "(directory look-ups by object tag/ref)")
+    return n
